@@ -43,7 +43,7 @@ func c06R1(p *core.Program, r *core.Report) {
 	genType := "(" + core.G("pkg/gengo.Generator") + ").GenerateType"
 	genAlias := "(" + core.G("pkg/gengo.AliasGenerator") + ").GenerateAliasType"
 	enabled := core.G("pkg/gengo.IsGeneratorEnabled")
-	docName := core.GM("pkg/gengo", "*gengoCtx", "Doc")
+	docName := core.GM("pkg/gengo", "*"+ctxTypeName(p), "Doc")
 	for _, spec := range []struct {
 		iface, arm, what string
 	}{{genType, "go/types.Named", "GenerateType"}, {genAlias, "go/types.Alias", "GenerateAliasType"}} {
@@ -223,7 +223,7 @@ func c06R1(p *core.Program, r *core.Report) {
 func c06R3(p *core.Program, r *core.Report) {
 	const rule = "R3"
 	r.Floor(rule, 4)
-	d := p.FuncByName("pkg/gengo", "(*gengoCtx).Doc")
+	d := ctxMethod(p, "Doc")
 	m := p.FuncByName("pkg/gengo", "merge")
 	if d == nil || m == nil {
 		r.Anchor(rule, "pkg/gengo.(*gengoCtx).Doc / merge")
@@ -253,7 +253,7 @@ func c06R3(p *core.Program, r *core.Report) {
 		switch {
 		case f0 == nil || f0.Name() != "Globals":
 			why = "the first (weakest) operand of merge is not GeneratorArgs.Globals"
-		case f1 == nil || f1.Name() != "pkgTags":
+		case !isRole(p, f1, "ctx.pkgTags"):
 			why = "the second operand of merge is not the package tags"
 		case !declOK:
 			why = "the third (strongest) operand of merge is not the declaration's own doc tags"
@@ -328,7 +328,7 @@ func c06R3(p *core.Program, r *core.Report) {
 				// the map is the pkgTags field, directly or through an alias (a helper's parameter)
 				me, _ := core.Resolve(finfo, f.Root().Body, ix.X)
 				fld := core.FieldOf(finfo, me)
-				if fld == nil || fld.Name() != "pkgTags" {
+				if !isRole(p, fld, "ctx.pkgTags") {
 					continue
 				}
 				stores++
@@ -364,7 +364,7 @@ func c06R3(p *core.Program, r *core.Report) {
 			return true
 		}
 		if id, isID := kv.Key.(*ast.Ident); isID && id.Name == "pkgTags" {
-			if f := core.FieldOf(pinfo, kv.Value); f != nil && f.Name() == "pkgTags" {
+			if f := core.FieldOf(pinfo, kv.Value); isRole(p, f, "ctx.pkgTags") {
 				shared = true
 			}
 		}
@@ -408,129 +408,253 @@ func c06R4(p *core.Program, r *core.Report) {
 		}
 		return true
 	}
-	var loop *ast.RangeStmt
-	for _, s := range f.Body.List {
-		if rs, ok := s.(*ast.RangeStmt); ok {
-			loop = rs
-		}
-	}
-	if loop == nil {
-		r.Anchor(rule, "loop over the tags in IsGeneratorEnabled")
-		return
-	}
-	k := core.VarOf(info, loop.Key)
-	vals := core.VarOf(info, loop.Value)
-	// exact match branch
-	exact := false
-	var exactBr *cfgx.Branch
-	for _, br := range g.Branches() {
-		b, ok := ast.Unparen(br.Cond).(*ast.BinaryExpr)
-		if !ok || b.Op != token.EQL {
-			continue
-		}
-		var other ast.Expr
-		if core.VarOf(info, b.X) == k {
-			other = b.Y
-		} else if core.VarOf(info, b.Y) == k {
-			other = b.X
-		}
-		if other != nil && isPrefixLeaves(leaves(other), "") {
-			exact = true
-			bb := br
-			exactBr = &bb
-		}
-	}
-	r.Check(exact, rule, f, "the generator's own tag is matched exactly: k == \"gengo:\" + Name()", loop.Pos(), "equality against \"gengo:\"+g.Name()", "no exact comparison of the key with \"gengo:\" + g.Name(): a tag of a generator whose name merely starts with this name could decide")
-	// returns inside the loop: only under the exact match, value Join(values,"") != "false"
-	retOK, nret := true, 0
-	ast.Inspect(loop.Body, func(n ast.Node) bool {
-		ret, ok := n.(*ast.ReturnStmt)
-		if !ok {
-			return true
-		}
-		nret++
-		at := g.PointOf(ret)
-		if exactBr == nil || !g.EdgeDominates(exactBr.B, 0, at) {
-			retOK = false
-			return true
-		}
-		e, _ := core.Resolve(info, f.Body, ret.Results[0])
-		// the returned variable may be assigned just before: enabled = Join(...) != "false"; return enabled
-		if v := core.VarOf(info, ret.Results[0]); v != nil {
-			defs, _ := reachingDefs(g, v, at)
-			if len(defs) == 1 {
-				if as, ok := defs[0].Node().(*ast.AssignStmt); ok && len(as.Rhs) == 1 {
-					e = as.Rhs[0]
-				}
+	// the tags parameter and the loops over it
+	var tagsP *types.Var
+	for _, fld := range f.Decl.Type.Params.List {
+		for _, n := range fld.Names {
+			if v, _ := info.ObjectOf(n).(*types.Var); v != nil && isMapType(v.Type()) {
+				tagsP = v
 			}
 		}
-		b, ok := ast.Unparen(e).(*ast.BinaryExpr)
-		if !ok || b.Op != token.NEQ || !constStrIs(info, b.Y, "false") {
-			retOK = false
-			return true
-		}
-		jc := core.AsCall(info, b.X, "strings.Join")
-		if jc == nil || core.VarOf(info, jc.Args[0]) != vals || !constStrIs(info, jc.Args[1], "") {
-			retOK = false
+	}
+	if tagsP == nil {
+		r.Anchor(rule, "tags parameter of IsGeneratorEnabled")
+		return
+	}
+	var loops []*ast.RangeStmt
+	ast.Inspect(f.Body, func(n ast.Node) bool {
+		if rs, ok := n.(*ast.RangeStmt); ok && core.VarOf(info, rs.X) == tagsP {
+			loops = append(loops, rs)
 		}
 		return true
 	})
-	r.Check(retOK && nret == 1, rule, f, "an exact tag decides by itself: enabled iff its value is not \"false\"", loop.Pos(), "the only return in the loop is under k == prefix and returns Join(values, \"\") != \"false\"",
-		"the loop has another return (map-iteration order would decide) or the exact tag's verdict is not `Join(values, \"\") != \"false\"`")
-	// sub-tag branch
-	subOK := false
+	loopOf := func(n ast.Node) *ast.RangeStmt {
+		for _, l := range loops {
+			if l.Body.Pos() <= n.Pos() && n.End() <= l.Body.End() {
+				return l
+			}
+		}
+		return nil
+	}
+	// facts
+	keyEqPrefix := func(at cfgxPoint, l *ast.RangeStmt) bool {
+		if l == nil {
+			return false
+		}
+		k := core.VarOf(info, l.Key)
+		for _, fct := range g.FactsAt(at) {
+			v, ok := eqFact(fct, func(e ast.Expr) bool { return k != nil && core.VarOf(info, e) == k }, func(e ast.Expr) bool { return isPrefixLeaves(leaves(e), "") })
+			if ok && v {
+				return true
+			}
+		}
+		return false
+	}
+	subTagFact := func(at cfgxPoint, l *ast.RangeStmt) bool {
+		if l == nil {
+			return false
+		}
+		k := core.VarOf(info, l.Key)
+		for _, fct := range g.FactsAt(at) {
+			hc := core.AsCall(info, fct.Cond, "strings.HasPrefix")
+			if hc != nil && fct.Val && fct.Tag == nil && k != nil && core.VarOf(info, hc.Args[0]) == k && isPrefixLeaves(leaves(hc.Args[1]), ":") {
+				return true
+			}
+		}
+		return false
+	}
+	// the values of the exact tag: the range value under k == prefix, or the result of tags[prefix] under ok
+	exactValues := func(e ast.Expr, at cfgxPoint) bool {
+		v := core.VarOf(info, e)
+		if v == nil {
+			return false
+		}
+		if l := loopOf(at.Node()); l != nil && core.VarOf(info, l.Value) == v {
+			return keyEqPrefix(at, l)
+		}
+		d, ok := core.SingleDef(info, f.Body, v)
+		if !ok || d.Index != 0 {
+			return false
+		}
+		ix, ok := ast.Unparen(d.Rhs).(*ast.IndexExpr)
+		if !ok || core.VarOf(info, ix.X) != tagsP || !isPrefixLeaves(leaves(ix.Index), "") {
+			return false
+		}
+		as, _ := d.Stmt.(*ast.AssignStmt)
+		if as == nil || len(as.Lhs) != 2 {
+			return false
+		}
+		okV := core.VarOf(info, as.Lhs[1])
+		for _, fct := range g.FactsAt(at) {
+			if okV != nil && core.VarOf(info, fct.Cond) == okV && fct.Val {
+				return true
+			}
+		}
+		return false
+	}
+	isVerdict := func(e ast.Expr, at cfgxPoint) bool {
+		b, ok := ast.Unparen(e).(*ast.BinaryExpr)
+		if !ok || b.Op != token.NEQ || !constStrIs(info, b.Y, "false") {
+			return false
+		}
+		jc := core.AsCall(info, b.X, "strings.Join")
+		return jc != nil && len(jc.Args) == 2 && constStrIs(info, jc.Args[1], "") && exactValues(jc.Args[0], at)
+	}
+	constBool := func(e ast.Expr) (bool, bool) {
+		tv := info.Types[e]
+		if tv.Value == nil {
+			return false, false
+		}
+		return tv.Value.String() == "true", tv.Value.String() == "true" || tv.Value.String() == "false"
+	}
+	// classify every return
+	type retInfo struct {
+		ret  *ast.ReturnStmt
+		at   cfgxPoint
+		kind string // verdict, true-subtag, false, flag, other
+		loop *ast.RangeStmt
+	}
+	var rets []retInfo
+	var flag *types.Var
+	for _, rp := range g.Points(func(n ast.Node) bool { _, ok := n.(*ast.ReturnStmt); return ok }) {
+		ret := rp.Node().(*ast.ReturnStmt)
+		ri := retInfo{ret: ret, at: rp, kind: "other", loop: loopOf(ret)}
+		if len(ret.Results) == 1 {
+			e := ret.Results[0]
+			if v := core.VarOf(info, e); v != nil {
+				// a variable: either assigned the verdict just before, or the accumulated flag
+				defs, _ := reachingDefs(g, v, rp)
+				if len(defs) == 1 {
+					if as, ok := defs[0].Node().(*ast.AssignStmt); ok && len(as.Rhs) == 1 && isVerdict(as.Rhs[0], defs[0]) {
+						ri.kind = "verdict"
+					}
+				}
+				if ri.kind == "other" {
+					ri.kind = "flag"
+					flag = v
+				}
+			} else if isVerdict(e, rp) {
+				ri.kind = "verdict"
+			} else if c, isC := constBool(e); isC {
+				if c && subTagFact(rp, ri.loop) {
+					ri.kind = "true-subtag"
+				} else if !c {
+					ri.kind = "false"
+				}
+			}
+		}
+		rets = append(rets, ri)
+	}
+	// O1 the exact tag decides by itself
+	nVerdict := 0
+	for _, ri := range rets {
+		if ri.kind == "verdict" {
+			nVerdict++
+		}
+	}
+	r.Check(nVerdict >= 1, rule, f, "the generator's own tag is matched exactly and decides by itself: enabled iff its value is not \"false\"", f.Node().Pos(),
+		"a return of Join(values, \"\") != \"false\" for the values of the key \"gengo:\"+g.Name() (k == prefix in the loop, or tags[prefix] found)",
+		"no return yields `Join(values, \"\") != \"false\"` for exactly the tag \"gengo:\" + g.Name(): the explicit tag does not decide by itself (or a tag of a generator whose name merely starts with this name could decide)")
+	// O2 map-order independence of the returns inside a loop over the tags
+	orderOK, whyOrder := true, ""
+	for _, l := range loops {
+		kinds := map[string]bool{}
+		for _, ri := range rets {
+			if ri.loop == l {
+				kinds[ri.kind] = true
+			}
+		}
+		switch {
+		case kinds["other"] || kinds["false"] || kinds["flag"]:
+			orderOK, whyOrder = false, "a loop over the tags returns something that is neither the exact tag's verdict nor the constant true for a sub-tag"
+		case kinds["verdict"] && kinds["true-subtag"]:
+			orderOK, whyOrder = false, "one loop over the tags returns both for the exact tag and for a sub-tag: whichever the map yields first decides (an explicit `=false` can lose against a sub-tag)"
+		case kinds["true-subtag"]:
+			// "exists" loop: fine only if the exact tag was decided before the loop
+			decided := false
+			for _, ri := range rets {
+				if ri.kind == "verdict" && ri.loop == nil && ri.ret.End() <= l.Pos() {
+					decided = true
+				}
+			}
+			if !decided {
+				orderOK, whyOrder = false, "the loop returns true for a sub-tag although the exact tag has not been looked up before it"
+			}
+		}
+	}
+	r.Check(orderOK, rule, f, "map-iteration order cannot decide the verdict", f.Node().Pos(), "inside a loop over the tags only the unique exact key returns, or the exact tag was looked up first and the loop only returns the constant true", whyOrder)
+	// O3 a sub-tag enables: under HasPrefix(k, prefix + ":") only `enabled = true` / `return true`
+	subOK, nSub := true, 0
 	for _, br := range g.Branches() {
 		hc := core.AsCall(info, br.Cond, "strings.HasPrefix")
-		if hc == nil || core.VarOf(info, hc.Args[0]) != k {
+		if hc == nil || br.Tag != nil {
 			continue
 		}
-		if isPrefixLeaves(leaves(hc.Args[1]), ":") {
-			// its true edge only assigns the constant true
-			body := br.B.Succs[0]
-			only := true
-			for _, n := range body.Nodes {
-				as, ok := n.(*ast.AssignStmt)
-				if !ok || len(as.Rhs) != 1 {
-					only = false
-					continue
+		l := loopOf(br.Cond)
+		if l == nil || core.VarOf(info, hc.Args[0]) != core.VarOf(info, l.Key) {
+			continue
+		}
+		nSub++
+		if !isPrefixLeaves(leaves(hc.Args[1]), ":") {
+			subOK = false
+			continue
+		}
+		body := br.B.Succs[0]
+		for _, n := range body.Nodes {
+			switch x := n.(type) {
+			case *ast.AssignStmt:
+				if len(x.Rhs) != 1 {
+					subOK = false
+				} else if c, isC := constBool(x.Rhs[0]); !isC || !c {
+					subOK = false
 				}
-				if tv := info.Types[as.Rhs[0]]; tv.Value == nil || tv.Value.String() != "true" {
-					only = false
+			case *ast.ReturnStmt:
+				if len(x.Results) != 1 {
+					subOK = false
+				} else if c, isC := constBool(x.Results[0]); !isC || !c {
+					subOK = false
 				}
+			default:
+				subOK = false
 			}
-			subOK = only && len(body.Nodes) >= 1
+		}
+		if len(body.Nodes) == 0 {
+			subOK = false
 		}
 	}
-	r.Check(subOK, rule, f, "a sub-tag enables: HasPrefix(k, \"gengo:\" + Name() + \":\") sets enabled = true", loop.Pos(), "prefix ends with the colon; the arm only assigns the constant true",
-		"the sub-tag test is not HasPrefix(k, \"gengo:\"+Name()+\":\") setting enabled = true: without the trailing colon `gengo:deep...` of another generator enables this one")
-	// default false and final return of the flag
-	var flag *types.Var
+	r.Check(subOK && nSub >= 1, rule, f, "a sub-tag enables: HasPrefix(k, \"gengo:\" + Name() + \":\") leads to true", f.Node().Pos(), "prefix ends with the colon; the arm only yields the constant true",
+		"the sub-tag test is not HasPrefix(k, \"gengo:\"+Name()+\":\") yielding true: without the trailing colon `gengo:deep...` of another generator enables this one")
+	// O4 default false
+	defOK := false
 	if ret, ok := lastStmt(f.Body.List).(*ast.ReturnStmt); ok && len(ret.Results) == 1 {
-		flag = core.VarOf(info, ret.Results[0])
-	}
-	initFalse := false
-	if flag != nil {
-		for _, d := range core.DefsOf(info, f.Body, flag) {
-			if d.Kind == "define" || d.Kind == "var" {
-				if tv := info.Types[d.Rhs]; tv.Value != nil && tv.Value.String() == "false" {
-					initFalse = true
+		if c, isC := constBool(ret.Results[0]); isC && !c {
+			defOK = true
+		} else if v := core.VarOf(info, ret.Results[0]); v != nil && v == flag {
+			for _, d := range core.DefsOf(info, f.Body, v) {
+				if d.Kind == "define" || d.Kind == "var" {
+					if tv := info.Types[d.Rhs]; tv.Value != nil && tv.Value.String() == "false" {
+						defOK = true
+					}
 				}
 			}
 		}
 	}
-	r.Check(initFalse, rule, f, "without any tag the generator is not enabled", f.Node().Pos(), "enabled := false; return enabled", "the default verdict is not false")
-	// the loop ranges over the tags parameter
-	tp := core.VarOf(info, loop.X)
-	r.Check(tp != nil && isParamOf(f, tp), rule, f, "the verdict is computed from the tags passed in", loop.Pos(), "range over the parameter", "the loop does not range over the tags parameter")
+	r.Check(defOK, rule, f, "without any tag the generator is not enabled", f.Node().Pos(), "the final return is false (or a flag initialised with false)", "the default verdict is not false")
+	// O5 the verdict is computed from the tags passed in
+	r.Check(len(loops) >= 1, rule, f, "the verdict is computed from the tags passed in", f.Node().Pos(), "range over the parameter", "no loop ranges over the tags parameter")
 }
 
 func c06R5(p *core.Program, r *core.Report) {
 	const rule = "R5"
 	r.Floor(rule, 4)
-	f := p.FuncByName("pkg/gengo", "(*gengoCtx).pkgExecute")
-	dg := p.FuncByName("pkg/gengo", "(*gengoCtx).doGenerate")
+	pl := findPipeline(p, r, rule)
+	if pl == nil {
+		return
+	}
+	f := pl.pkgExec
+	dg := pl.dispatch
 	if f == nil || dg == nil {
-		r.Anchor(rule, "pkg/gengo.(*gengoCtx).pkgExecute / doGenerate")
+		r.Anchor(rule, "the per-package function and the dispatch loop of pkg/gengo")
 		return
 	}
 	info := f.Info()
@@ -539,7 +663,7 @@ func c06R5(p *core.Program, r *core.Report) {
 	var loop *ast.RangeStmt
 	ast.Inspect(f.Body, func(n ast.Node) bool {
 		if rs, ok := n.(*ast.RangeStmt); ok {
-			if fld := core.FieldOf(info, rs.X); fld != nil && fld.Name() == "defers" {
+			if fld := core.FieldOf(info, rs.X); isRole(p, fld, "ctx.callbacks") {
 				loop = rs
 			}
 		}
@@ -603,7 +727,7 @@ func c06R5(p *core.Program, r *core.Report) {
 		for _, c := range core.Calls(n, true) {
 			cn := core.CalleeName(info, c)
 			// (a write is only possible for a registered file; C02.R2 shows that no callback follows a write)
-			if strings.HasSuffix(cn, "gengoCtx).IsZero") || cn == "(*sync.Map).Store" {
+			if strings.HasSuffix(cn, ctxTypeName(p)+").IsZero") || cn == "(*sync.Map).Store" {
 				return true
 			}
 		}
@@ -634,9 +758,9 @@ func c06R5(p *core.Program, r *core.Report) {
 			switch x := n.(type) {
 			case *ast.AssignStmt:
 				for _, l := range x.Lhs {
-					if fld := core.FieldOf(finfo, l); fld != nil && fld.Name() == "defers" {
+					if fld := core.FieldOf(finfo, l); isRole(p, fld, "ctx.callbacks") {
 						stores++
-						if ff.Name != "(*gengoCtx).Defer" {
+						if ff.Name != "(*"+ctxTypeName(p)+").Defer" {
 							okStores = false
 						}
 					}
